@@ -300,6 +300,9 @@ def witnesses():
         ("witness-huge-array-of-empty", ".h", "struct E {};\nstruct S { struct E a[0xFFFFFFFFFFFFFFFFULL]; };\n"),
         ("witness-function-typedef-member", ".hpp", "typedef void (F)(void);\nstruct S { F m; };\n"),
         ("witness-integer-complex", ".h", "long _Complex g;\nint _Complex h;\n"),
+        # calling conventions get_abi does not know (found through CallConv.tla's grid, C04)
+        ("witness-unknown-calling-convention", ".h", "void __attribute__((preserve_most)) hot_path(int a);\nint ordinary(int b);\n"),
+        ("witness-unknown-calling-convention-pointer", ".h", "typedef void (__attribute__((preserve_most)) *hot_cb)(int);\nstruct uses_hot { hot_cb cb; int n; };\n"),
         ("witness-function-typedef-member-union", ".hpp", "typedef float **(T0)(short **);\nunion U { bool a0[1]; T0 m2; };\n"),
     ]
 
